@@ -153,6 +153,16 @@ def gen_case(seed, run, tier):
             r["name"] = "R%d" % (names_used if rw.random() < 0.9 else max(0, names_used - 1))
             names_used += 1
         bank.append(r)
+    if rs.random() < 0.1 and not chainy and bank:
+        victim = rw.choice([r for r in bank if not r.get("eq")] or bank[:1])
+        if not victim.get("eq"):
+            k = rw.choice(sorted(victim["prod"]))
+            victim["prod"][k] = -victim["prod"][k]
+            victim["neg"] = True
+            if not any(victim["prod"].get(x, 0) + victim["inact_prod"].get(x, 0) - victim["reac"].get(x, 0) - victim["inact_reac"].get(x, 0)
+                       for x in set(victim["reac"]) | set(victim["prod"]) | set(victim["inact_reac"]) | set(victim["inact_prod"])):
+                victim["prod"][k] = -victim["prod"][k]
+                victim.pop("neg")
     for r in bank:
         r.pop("_has_rev", None)
         r.pop("_is_rev", None)
@@ -293,6 +303,7 @@ def gen_case(seed, run, tier):
                 op["moves"] = [{"rel": rw.randrange(len(relations)), "t": rw.randint(0, 8), "dir": rw.choice([-1, 1])}
                                for _ in range(rw.randint(0, 6))] if relations else []
                 op["min_cb"] = rw.choice([None, None, "numpy", "twopass", "strict"])
+                op["skip_keys"] = rw.choice([None, None, "empty", "zero"])
             elif kind == "eq":
                 op["b"] = b
             ops.append(op)
@@ -373,8 +384,9 @@ def execute(case):
     for r in bankspec:
         cls = Equilibrium if r.get("eq") else Reaction
         p = tuple(r["param"]) if isinstance(r["param"], list) else r["param"]
+        extra_kw = {"dont_check": {"all_positive"}} if r.get("neg") else {}
         robjs.append(cls(dict(r["reac"]), dict(r["prod"]), p, inact_reac=dict(r["inact_reac"]) or None,
-                         inact_prod=dict(r["inact_prod"]) or None, name=r.get("name")))
+                         inact_prod=dict(r["inact_prod"]) or None, name=r.get("name"), **extra_kw))
     rid = {id(o): i for i, o in enumerate(robjs)}
 
     def rsnap(o):
@@ -792,6 +804,8 @@ def execute(case):
             if irr_dup:
                 bad.add("duplicate")
             expect = True if bad else False
+            if any(bankspec[i].get("neg") for i in rx):
+                expect = True  # "Expected positive stoichiometric coefficients"
             if ("balance" in checks and comps is not None) or "duplicate_names" in checks:
                 expect = None if not bad else True  # names of expanded equilibria: unspecified
             ckw = dict(_checks_kwargs(op["checks"]))
@@ -947,6 +961,10 @@ def execute(case):
                         raise ValueError("NaN among candidates")
                     return min(vals_)
                 bkw["min_"] = _strict_min
+            if op.get("skip_keys") == "empty":
+                bkw["skip_keys"] = ()  # net charge is never an element, whether or not it is skipped when summing
+            elif op.get("skip_keys") == "zero":
+                bkw["skip_keys"] = (0,)
             try:
                 ub = obj.upper_conc_bounds({k: float(cmap[k]) for k in reversed(subs)}, **bkw)
             except Exception as ex:
